@@ -11,7 +11,7 @@ import numpy as np
 from .. import proto
 from ..proto import enc, hexs, unhex
 from ..engine import Finding, Timeout
-from .c02 import guarded, enc_table, enc_dictable, dec_table, keq, cell, NAN, SNAN
+from .c02 import guarded, enc_table, enc_dictable, dec_table, keq, cell, NAN, SNAN, XNAN
 import pyg_base  # noqa: E402
 
 logging.getLogger('pyg').setLevel(logging.ERROR)
@@ -31,10 +31,11 @@ ASSUMPTIONS = ['pyg_base.sort orders the (key, row id) pairs as the model of C07
                'pivot: y values are None / ints / floats / strings / datetimes; an int y becomes the column key str(y), every other y value is the column key itself '
                '(a float / datetime / None key of the dict): the model names such a key U+0000 + its wire atom and the runner encodes the implementation\'s '
                'column keys (and the y column of unpivot, which lists them) the same way; string cells do not start with U+0000; two y values with one column key '
-               '(1 beside \'1\') or a key equal to an x column name: ValueError (defect P1, fixed); NaN / bools are not used as y values '
-               '(dict keys by identity / equal to 1, 0); datetime.date objects are not generated (a date beside the equal datetime raises KeyError: outside the quantifier); '
-               'tables handed to pivot have at least one row; aggregators: None, len, first, last',
-               'cells are scalars (None, ints, quarter floats, strings, datetimes); NaN appears in key columns of listby/groupby only']
+               '(1 beside \'1\') or a key equal to an x column name: ValueError (defect P1, fixed); NaN y values of any identity are one y value whose column key is a NaN object '
+               '(named U+0000 F:nan; defect G4, fixed); bools are not used as y values (equal to 1, 0 as dict keys); datetime.date objects are not generated '
+               '(a date beside the equal datetime raises KeyError: outside the quantifier); aggregators on the wire: None, len, first, last (the theorem pivot_cell_fn covers any total function)',
+               'cells are scalars (None, ints, quarter floats, strings, datetimes, NaN objects of any identity)',
+               'groupby: the group column (grp=, default \'grp\') named like a key column is rejected with ValueError (defect G1, fixed); column names include grp, self, data, columns']
 CALL_TIMEOUT = 8
 D = datetime.datetime
 
@@ -47,7 +48,15 @@ def rand_table(rng, ncols=None, nan_ok=True, min_rows=0):
     ncols = ncols or rng.choice([2, 2, 3, 3, 4])
     n = max(min_rows, rng.choice([0, 1, 2, 3, 4, 5, 6, 7, 8]))
     # one table in five has column names that are substrings of one another ('t' in 'ticker'): key / column selection by name must be exact
-    names = (['a', 'b', 'c', 'd'] if rng.random() < 0.8 else rng.choice([['ticker', 't', 'date', 'a'], ['name', 'me', 'n', 'a'], ['ab', 'a', 'b', 'abc']]))[:ncols]
+    r = rng.random()
+    if r < 0.7:
+        names = ['a', 'b', 'c', 'd']
+    elif r < 0.85:
+        names = rng.choice([['ticker', 't', 'date', 'a'], ['name', 'me', 'n', 'a'], ['ab', 'a', 'b', 'abc']])
+    else:
+        # columns named like the default group column of groupby ('grp') or like a parameter of the methods used internally ('self', 'data', 'columns')
+        names = rng.choice([['grp', 'a', 'self', 'b'], ['a', 'grp', 'v', 'self'], ['self', 'v', 'grp', 'a'], ['data', 'columns', 'grp', 'a']])
+    names = names[:ncols]
     t = []
     for k in names:
         r = rng.random()
@@ -85,11 +94,12 @@ YPOOLS = [(['p', 'q', 'r'], 'str'), ([1, 2, 3], 'int'), (['p', 1, 'q', 2], 'str-
           ([0.5, 1.5, 2.5, -0.25], 'float'), ([D(2020, 1, 1), D(2020, 1, 2, 12), D(2021, 5, 5)], 'datetime'),
           ([None, 'p', 'q'], 'none'), ([None, 1.5, 'p', D(2020, 1, 1), 2], 'mixed'), (['1.5', 1.5, 'None', None], 'str-vs-object'),
           ([1, 1.0, 2.5, 2], 'int-float-equal'),
+          ([NAN, NAN, 'p'], 'nan-fresh'), ([SNAN, SNAN, 1.5], 'nan-shared'), ([NAN, SNAN, XNAN, 2], 'nan-mixed'),
           ([1, '1', 2], 'collide-int-str'), ([1, '1', 'p', -3, '-3'], 'collide-int-str'), (['a', 'p', 'q'], 'collide-x-name')]
 
 
 def gen_pivot(rng):
-    n = rng.choice([1, 2, 3, 4, 5, 6, 8])
+    n = rng.choice([0, 1, 2, 3, 4, 5, 6, 8])      # 0: a table with columns and no rows
     nx = rng.choice([1, 1, 2])
     xn = ['a', 'b'][:nx]
     t = [(k, [rng.choice(rng.sample(KEYS, 3) if rng.random() < 0.8 else KEYS) for _ in range(n)]) for k in xn]
@@ -104,13 +114,15 @@ def gen_pivot(rng):
     if rng.random() < 0.3:     # unique (x, y): the invertible case
         seen, keep = set(), []
         for i in range(n):
-            k = tuple(enc(c[1][i]) for c in t[:nx + 1])
+            k = tuple(cell(c[1][i]) for c in t[:nx + 1])
             k = tuple(proto.canon_cell(a) for a in k)
             if k not in seen:
                 seen.add(k)
                 keep.append(i)
         t = [(k, [v[i] for i in keep]) for k, v in t]
     agg = rng.choice(['none', 'len', 'first', 'last', 'last'])
+    if n == 0:
+        ykind = 'empty'
     return t, xn, agg, ykind
 
 
@@ -125,7 +137,14 @@ def generate(rng, tier):
         elif r < 0.75:
             t = rand_table(rng)
             by, kind = gen_by(rng, [k for k, _ in t])
-            yield dict(tag='groupby-' + kind, lines=['(group gu %s %s sp:%s)' % (enc_table(t), enc_names(by), rng.choice('sl'))])
+            names = [k for k, _ in t]
+            r2 = rng.random()
+            # the name of the group column: the default 'grp', or grp = a fresh name / a key column / another column of the table
+            grp = None if r2 < 0.7 else 'g' if r2 < 0.8 else rng.choice(by) if r2 < 0.9 and by else rng.choice(names)
+            gkind = '' if grp is None else '-grp=key' if grp in by else '-grp=column' if grp in names else '-grp=fresh'
+            if grp is None and 'grp' in by:
+                gkind = '-grp-is-key'
+            yield dict(tag='groupby-' + kind + gkind, lines=['(group gu %s %s sp:%s%s)' % (enc_table(t), enc_names(by), rng.choice('sl'), '' if grp is None else ' S:' + hexs(grp))])
         else:
             t, xn, agg, ykind = gen_pivot(rng)
             if rng.random() < 0.04:
@@ -135,7 +154,10 @@ def generate(rng, tier):
 
 
 def key_name(k):
-    """a column key of a pivot table as the model names it: a string is its own name, any other key (float, datetime, None) is U+0000 + its wire atom"""
+    """a column key of a pivot table as the model names it: a string is its own name, any other key (float, datetime, None) is U+0000 + its wire atom
+    (a NaN key of any identity / numpy type: U+0000 F:nan)"""
+    if isinstance(k, float) and k != k:
+        return '\x00F:nan'
     return k if isinstance(k, str) else '\x00' + enc(k)
 
 
@@ -157,8 +179,9 @@ def run_line(state, sx):
             l = guarded(lambda: d.listby(*by) if star else d.listby(by))
             u = guarded(lambda: l.unlist())
         else:
-            l = guarded(lambda: d.groupby(*by) if star else d.groupby(by))
-            u = guarded(lambda: l.ungroup())
+            kw = dict(grp=proto.dec_cell(sx[5])) if len(sx) > 5 else {}
+            l = guarded(lambda: d.groupby(*by, **kw) if star else d.groupby(by, **kw))
+            u = guarded(lambda: l.ungroup(**kw))
         return 'ok (T %s %s %s)' % (enc_dictable(l), enc_dictable(u), enc_dictable(d))
     if op == 'pv':
         x = [proto.dec_cell(a) for a in sx[3][1:]]
@@ -175,7 +198,9 @@ def compare(case, i, line, ir, mr):
         return 'the call did not return'
     if mr in ('bad-op', 'no-driver'):
         return ('divergence', 'model does not cover this call (impl: %s)' % ir[:100])
-    if proto.same_reply(ir, mr):
+    # type-strict: an int cell is not the float of the same value (the model stores the same group representative as the code: the key of the
+    # group's last row), in key columns, other columns, z values and the operand alike
+    if proto.same_reply(ir, mr, numeric=False):
         return None
     if ir.startswith('err') and mr.startswith('ok'):
         return 'the round trip raised (%s) where the statement prescribes a table' % ir
@@ -186,7 +211,7 @@ def compare(case, i, line, ir, mr):
         a, b = proto.parse(ir[3:]), proto.parse(mr[3:])
         names = ['regrouped table', 'inverse', 'operand afterwards']
         for k in (1, 2, 3):
-            if proto.canon(a[k]) != proto.canon(b[k]):
+            if proto.canon(a[k], numeric=False) != proto.canon(b[k], numeric=False):
                 return '%s differs: %s, model %s' % (names[k - 1], proto.render(a[k])[:200], proto.render(b[k])[:200])
     return ('divergence', 'implementation %s, model %s' % (ir[:120], mr[:120]))
 
@@ -223,16 +248,23 @@ def shrink(case, still_fails):
 
 # ------------------------------------------------------------------ laws on the implementation alone
 
-def canon_py(v):
+def canon_py(v, numeric=True):
     if isinstance(v, (list, tuple)):
-        return (type(v).__name__,) + tuple(canon_py(u) for u in v)
+        return (type(v).__name__,) + tuple(canon_py(u, numeric) for u in v)
     if isinstance(v, float) and math.isnan(v):
         return ('F', 'nan')
-    return proto.canon_cell(enc(v))
+    return proto.canon_cell(enc(v), numeric)
 
 
-def rows_of(d, cols):
-    return [tuple(canon_py(d[c][i]) for c in cols) for i in range(len(d))]
+def strict(v):
+    """type-strict token of a cell: 1, 1.0 and True are three different cells (NaN objects are one cell)"""
+    return canon_py(v, numeric=False)
+
+
+def rows_of(d, cols, by=()):
+    """the rows of d as tuples of tokens: key columns (`by`) by VALUE (the statement's key equality: 1 equals 1.0 - a regrouping stores one
+    representative key per group), every other cell type-strictly"""
+    return [tuple(canon_py(d[c][i]) if c in by else strict(d[c][i]) for c in cols) for i in range(len(d))]
 
 
 def render_key(v):
@@ -255,6 +287,18 @@ def col_of(c, y):
     return isinstance(c, (int, float)) and not isinstance(c, bool) and keq(c, y)
 
 
+def _ungroup_cols(G, kw):
+    try:
+        return list(guarded(lambda: G.ungroup(**kw)).keys())
+    except Exception as e:
+        return type(e).__name__
+
+
+def snapshot(d):
+    """type-strict picture of a table: column order, cell types and values"""
+    return [(k, [strict(v) for v in d[k]]) for k in d.keys()]
+
+
 def laws(rng, tier, ctx):
     n = 300 if tier == 'quick' else 5000
     count = 0
@@ -268,6 +312,7 @@ def laws(rng, tier, ctx):
         line = '(group lu %s %s sp:l)' % (enc_table(t), enc_names(by))
         case = dict(tag='law-listby', lines=[line])
         d = dec_table(proto.parse(line)[2])
+        before = snapshot(d)
         nrows = len(d)
         keys = list(zip(*[d[k] for k in by]))
         same = lambda p, q: all(keq(a, b) for a, b in zip(p, q))   # noqa: E731
@@ -275,16 +320,16 @@ def laws(rng, tier, ctx):
         try:
             L = guarded(lambda: d.listby(by))
             U = guarded(lambda: L.unlist())
-            G = guarded(lambda: d.groupby(by))
-            R = guarded(lambda: G.ungroup())
         except Timeout:
-            yield Finding('violation', case, 'listby / groupby did not return')
+            yield Finding('violation', case, 'listby / unlist did not return')
             continue
         except Exception as e:
-            yield Finding('violation', case, 'listby / unlist / groupby / ungroup raised %s on a valid call' % type(e).__name__)
+            yield Finding('violation', case, 'listby / unlist raised %s on a valid call' % type(e).__name__)
             continue
         lkeys = list(zip(*[L[k] for k in by]))
         msg = None
+        if snapshot(d) != before:
+            msg = 'listby / unlist altered the table they were called on'
         if any(same(lkeys[i], lkeys[j]) for i in range(len(L)) for j in range(i)):
             msg = 'listby has two rows with the same key'
         for i in range(nrows):
@@ -294,26 +339,78 @@ def laws(rng, tier, ctx):
         if msg is None:
             for g in range(len(L)):
                 members = [i for i in range(nrows) if same(lkeys[g], keys[i])]
+                # the key stored for a group is LITERALLY the key of one of its rows (type and value: a 1 beside 1.0 is stored as one of the two, never as something else)
+                if not any(tuple(strict(v) for v in lkeys[g]) == tuple(strict(v) for v in keys[i]) for i in members):
+                    msg = 'listby key %r is not the key of any of its rows %r' % (lkeys[g], [keys[i] for i in members])
                 for c in others:
-                    if canon_py(list(L[c][g])) != canon_py([d[c][i] for i in members]):
+                    if strict(list(L[c][g])) != strict([d[c][i] for i in members]):
                         msg = 'listby cell %s of key %r is %r, the values of that key in row order are %r' % (c, lkeys[g], L[c][g], [d[c][i] for i in members])
         if msg is None:
             order = sorted(range(nrows), key=functools.cmp_to_key(lambda i, j: pyg_base.cmp(keys[i], keys[j])))
-            want = [tuple(canon_py(d[c][i]) for c in names) for i in order]
-            if rows_of(U, names) != want:
+            want = [tuple(canon_py(d[c][i]) if c in by else strict(d[c][i]) for c in names) for i in order]
+            if sorted(U.keys()) != sorted(names) or rows_of(U, names, by) != want:
                 msg = 'unlist(listby) is not the table stably sorted by the keys'
+            elif all(tuple(strict(v) for v in keys[i]) == tuple(strict(v) for v in keys[j]) for i in range(nrows) for j in range(i) if same(keys[i], keys[j])) \
+                    and rows_of(U, names) != [tuple(strict(d[c][i]) for c in names) for i in order]:
+                # keys that are equal are literally equal (no 1 beside 1.0): then the inverse is LITERALLY the sorted table, key cells included
+                msg = 'unlist(listby) differs in a key cell\'s type from the table stably sorted by the keys although equal keys are identical'
         if msg:
             yield Finding('violation', case, msg)
             continue
-        gcase = dict(tag='law-groupby', lines=['(group gu %s %s sp:l)' % (enc_table(t), enc_names(by))])
+        # groupby / ungroup, with the default group column 'grp' or an explicit grp = fresh name / key column / other column
+        r = rng.random()
+        grp = None if r < 0.7 else 'g' if r < 0.8 else rng.choice(by) if r < 0.9 else rng.choice(names)
+        kw = {} if grp is None else dict(grp=grp)
+        gname = 'grp' if grp is None else grp
+        gcase = dict(tag='law-groupby' + ('' if grp is None else '-grp=key' if grp in by else '-grp=column' if grp in names else '-grp=fresh'),
+                     lines=['(group gu %s %s sp:l%s)' % (enc_table(t), enc_names(by), '' if grp is None else ' S:' + hexs(grp))])
+        count += 1
+        try:
+            G = guarded(lambda: d.groupby(by, **kw))
+        except Timeout:
+            yield Finding('violation', gcase, 'groupby did not return')
+            continue
+        except ValueError:
+            # the group column cannot carry the name of a key column: refusing is the only answer that loses nothing
+            if gname not in by:
+                yield Finding('violation', gcase, 'groupby raised ValueError on a valid call')
+            continue
+        except Exception as e:
+            yield Finding('violation', gcase, 'groupby raised %s on a valid call' % type(e).__name__)
+            continue
+        if gname in by:
+            yield Finding('violation', gcase, 'groupby(%r) with the group column named %r returned a table with columns %r: the sub-tables replaced the key column %r, '
+                          'so ungroup() cannot restore it (it returns columns %r)' % (by, gname, list(G.keys()), gname, _ungroup_cols(G, kw)))
+            continue
+        try:
+            R = guarded(lambda: G.ungroup(**kw))
+        except Timeout:
+            yield Finding('violation', gcase, 'ungroup did not return')
+            continue
+        except Exception as e:
+            yield Finding('violation', gcase, 'ungroup of a groupby raised %s (%s)' % (type(e).__name__, str(e)[:80]))
+            continue
+        if snapshot(d) != before:
+            yield Finding('violation', gcase, 'groupby / ungroup altered the table they were called on')
+            continue
         gkeys = list(zip(*[G[k] for k in by]))
-        if any(same(gkeys[i], gkeys[j]) for i in range(len(G)) for j in range(i)) or \
+        subs = list(G[gname])
+        if list(G.keys()) != list(by) + [gname]:
+            yield Finding('violation', gcase, 'groupby has columns %r, expected the keys and %r' % (list(G.keys()), gname))
+        elif any(same(gkeys[i], gkeys[j]) for i in range(len(G)) for j in range(i)) or \
                 any(sum(same(gk, k) for gk in gkeys) != 1 for k in keys):
             yield Finding('violation', gcase, 'groupby does not have exactly one sub-table per distinct key')
-        elif sum(len(g) for g in G['grp']) != nrows:
-            yield Finding('violation', gcase, 'group sizes add up to %d, len(d) = %d' % (sum(len(g) for g in G['grp']), nrows))
-        elif Counter(rows_of(R, names)) != Counter(rows_of(d, names)):
+        elif sum(len(g) for g in subs) != nrows:
+            yield Finding('violation', gcase, 'group sizes add up to %d, len(d) = %d' % (sum(len(g) for g in subs), nrows))
+        elif any(rows_of(subs[g], others) != [tuple(strict(d[c][i]) for c in others) for i in range(nrows) if same(gkeys[g], keys[i])] for g in range(len(G))):
+            yield Finding('violation', gcase, 'a sub-table of groupby is not the rows of its key (other columns, original order, cell types)')
+        elif sorted(R.keys()) != sorted(names):
+            yield Finding('violation', gcase, 'ungroup(groupby) has columns %r, the table has %r' % (list(R.keys()), names))
+        elif Counter(rows_of(R, names, by)) != Counter(rows_of(d, names, by)):
             yield Finding('violation', gcase, 'ungroup(groupby) is not the original multiset of rows')
+        elif all(tuple(strict(v) for v in keys[i]) == tuple(strict(v) for v in keys[j]) for i in range(nrows) for j in range(i) if same(keys[i], keys[j])) \
+                and Counter(rows_of(R, names)) != Counter(rows_of(d, names)):
+            yield Finding('violation', gcase, 'ungroup(groupby) differs in a key cell\'s type from the original rows although equal keys are identical')
     m = 200 if tier == 'quick' else 3000
     for _ in range(m):
         t, xn, agg, ykind = gen_pivot(rng)
@@ -364,7 +461,7 @@ def laws(rng, tier, ctx):
             g = [g for g in range(len(P)) if same(pk[g], xk[i])][0]
             members = [d['z'][j] for j in range(n) if same(xk[j], xk[i]) and keq(d['y'][j], d['y'][i])]
             got = P[cols[0]][g]
-            if got is None or canon_py(list(got)) != canon_py(members):
+            if got is None or strict(list(got)) != strict(members):
                 msg = 'pivot cell (x=%r, y=%r) is %r, the rows there have z = %r' % (xk[i], d['y'][i], got, members)
         if msg is None:
             for g in range(len(P)):
@@ -374,8 +471,9 @@ def laws(rng, tier, ctx):
         if msg is None:
             uniq = all(not (same(xk[i], xk[j]) and keq(d['y'][i], d['y'][j])) for i in range(n) for j in range(i))
             if uniq and all(z is not None for z in d['z']):
-                got = Counter(r for r in rows_of(U, xn + ['y', 'z']) if r[-1] != ('N',))
-                want = Counter(tuple(canon_py(d[c][i]) for c in xn) + (canon_py(colkey[i]), canon_py(d['z'][i])) for i in range(n))   # colkey: y rendered as column key (of its group's representative: '1' or 1.0 for 1 beside 1.0)
+                # x keys by value (the pivot table stores one representative per group), column key and z type-strictly
+                got = Counter(r for r in rows_of(U, xn + ['y', 'z'], by=xn) if r[-1] != ('N',))
+                want = Counter(tuple(canon_py(d[c][i]) for c in xn) + (strict(colkey[i]), strict(d['z'][i])) for i in range(n))   # colkey: y rendered as column key (of its group's representative: '1' or 1.0 for 1 beside 1.0)
                 if got != want:
                     msg = 'unpivot(pivot) without the None cells is not the original (x, y, z) rows with y rendered as column keys'
         if msg:
